@@ -63,6 +63,8 @@ def deferred_adders(facts, adt):
     if not r['deferred']:
         return out
     for b in adt_bodies(facts, adt):
+        if facts.view in ('i', 'is') and b.vis not in ('pub', None) and b.impl_trait is None:
+            continue   # a private helper: in this view it is judged as part of each caller it is inlined into
         it = interp(facts, b)
         sites = direct_adding_sites(facts, it, r['deferred'])
         if sites:
@@ -92,7 +94,7 @@ def rm_routines(facts, adt):
         it0 = interp(facts, b)
         if any(is_rm_call(facts, it0, bb, r) for bb in it0.calls):
             continue
-        bi = inlined(facts, b, t1=True, t2='s' in facts.view)
+        bi = inlined(facts, b, t1=True, t2=facts.view in ('s', 'is'))
         iti = interp(facts, bi)
         sites = direct_adding_sites(facts, iti, r['deferred'])
         if sites:
@@ -150,7 +152,34 @@ def def_decide(ctx):
         if not rms:
             ctx.fail(inst, None, 'no function of %s ever adds to the pending-remove table %s' % (adt, r['deferred']))
             continue
+        cases = []
         for body, it, sites in rms:
+            found = []
+            Reach(facts, body, Evaluator(facts, classify=defer_classifier(found, r['clock'])))
+            if found:
+                cases.append((body, it, sites, body, it, None))
+                continue
+            # a helper that only files the remove: the decision has to be taken by every caller, at the call
+            keypar = None
+            for bb in sites:
+                for a in it.calls[bb].args:
+                    for st in subterms(versionless(a.val)):
+                        if st[0] == 'param' and st[1] >= 2 and keypar is None and 'VClock' in str(body.locals[st[1]]['ty'].get('s', '')):
+                            keypar = st[1]
+            callers = []
+            if body.vis not in ('pub', None) and body.impl_trait is None and body.kind != 'Closure':
+                for cb_ in adt_bodies(facts, adt):
+                    cit = interp(facts, cb_)
+                    cs = [bb for bb, c in cit.calls.items() if cinfo(c.cid)['uid'] == body.base_uid]
+                    if cs:
+                        callers.append((cb_, cit, cs))
+            if not callers or keypar is None:
+                ctx.fail(inst, body, 'pending removes are stored without comparing the remove clock with the replica clock',
+                         line=block_line(it, sites[0]))
+                continue
+            for cb_, cit, cs in callers:
+                cases.append((cb_, cit, cs, body, it, keypar))
+        for body, it, sites, abody, ait, keypar in cases:
             found = []
             evr = Evaluator(facts, classify=defer_classifier(found, r['clock']))
             Reach(facts, body, evr)
@@ -171,6 +200,11 @@ def def_decide(ctx):
             keyed = False
             for bb in sites:
                 c = it.calls[bb]
+                if keypar is not None:
+                    # the helper files the remove under its parameter `keypar`: that argument must be the compared clock
+                    if keypar - 1 < len(c.args) and versionless(c.args[keypar - 1].val) == found[0]:
+                        keyed = True
+                    continue
                 for a in c.args[1:]:
                     if versionless(a.val) == found[0]:
                         keyed = True
@@ -196,7 +230,7 @@ def def_decide(ctx):
                       props=['C08', 'C09', EL[inst]])
             # accumulate: elements already pending under the same clock must not be discarded
             inserts, unions = [], []
-            for bb2, c2 in it.calls.items():
+            for bb2, c2 in ait.calls.items():
                 n = call_name(c2.term)
                 if not c2.args or not c2.args[0].is_mut_ref:
                     continue
@@ -217,7 +251,7 @@ def def_decide(ctx):
             hit = False
             for pres in (True, False):
                 ev3 = Evaluator(facts, classify=defer_classifier([], r['clock']), bool_atom=present_atom, assumption={'defer': GT, 'present': pres})
-                rc3 = Reach(facts, body, ev3)
+                rc3 = Reach(facts, abody, ev3)
                 acc[pres] = (any(b in rc3.reachable for b in inserts), rc3.must_pass(unions) if unions else False,
                              rc3.must_pass(inserts + unions) if (inserts or unions) else False)
                 hit = hit or bool(ev3.hits.get('present'))
@@ -228,7 +262,7 @@ def def_decide(ctx):
                 aerrs.append('elements already pending under the same clock are not merged with the new ones')
             elif not inserts and not acc[True][1]:
                 aerrs.append('the new elements are not added to the pending set')
-            ctx.check(not aerrs, name + '/accumulate', body, 'pending elements under the same clock are accumulated, never replaced',
+            ctx.check(not aerrs, name + '/accumulate', abody, 'pending elements under the same clock are accumulated, never replaced',
                       aerrs[0] if aerrs else '', details={'present -> (insert may, union must, any must)': {str(k): v for k, v in acc.items()}},
                       props=['C08', 'C09', EL[inst]])
 
